@@ -83,7 +83,7 @@ add("C19", "fault_enumeration",
     "deterministic simulation: op histories + restart-after-every-op enumeration from disk images vs slice model")
 
 add("C20", "exploration",
-    "seeded histories of miner apply / add-stake / refund / change-account / become-node transactions (valid and invalid, refund payloads lacking a field, interleaved with transfers) executed by the real block executor on successive committed states at plan-chosen heights (jumping to escrow release heights), with restarts and seeded map order; a reference ledger that observes receipt statuses checks, after every block: lookup by id (two ways) / by account / by iteration agree; stake = applied + added - refunded; election totals = sum over active records; one miner per account; liquid balances moved by exactly released escrow minus stake locked; refund escrow grew by exactly the refunded amounts; a rejected miner transaction leaves nothing but fee/nonce (twin execution). Sampling, not proof.",
+    "seeded histories of miner apply / add-stake / refund / change-account / become-node transactions (valid and invalid, refund payloads lacking a field, interleaved with transfers) executed by the real block executor on successive committed states at plan-chosen heights (jumping to escrow release heights), with restarts and seeded map order; a reference ledger that observes receipt statuses checks, after every block: lookup by id (two ways) / by account / by iteration agree; stake = applied + added - refunded; election totals = sum over active records; one miner per account; liquid balances moved by exactly released escrow minus stake locked; refund escrow grew by exactly the refunded amounts; a rejected miner transaction leaves nothing but fee/nonce (twin execution); a change of account changes nothing else of the record. Sampling, not proof.",
     "trusted: the ledger (observes acceptance, rules only on double control of an account and refunds above the stake), closed address universe, stub ConsensusHelper; blocks are executed and committed as saveStates does but not inserted into the chain (heights are plan-chosen)",
     "deterministic simulation: miner-transaction histories + restarts + seeded map order vs reference ledger and twin execution")
 
